@@ -64,6 +64,26 @@ add('C22', 'exploration',
     'TLA+ spec Resolve.tla: resolution order with single alias expansion evaluated by TLC over all definition subsets and alias targets, exported as a table; each row set up and run in the real interpreter',
     'All 176 relevant combinations of {private, alias, function, builtin, external} x alias target {builtin, itself, another name} x definitions of the other name are enumerated by TLC; the definition that actually answers in murex (including self-referential aliases and alias-to-alias, which must not loop) is compared with the table.',
     'caller inside the private\'s module only; builtin case uses the name `escape`', 'DESIGN §6 C22')
+add('C16', 'model_checking',
+    'TLA+ spec Arrays.tla: TLC checks the transcribed key loop of itoIndexArray and isValidElementIndex against the rule "element k (0-based, negative from the end) iff -n <= k < n, else error" for every input in the bound and exports the case table; every row is run through the real `[`, `[[`, `![` builtins on json, yaml and jsonl documents and compared',
+    'All array lengths 0..5 (thorough 0..8) with 1-2 keys in -8..8 (-12..12), every single key in -30..30 on lengths 0..20 and all map lookups over key sets of <=3 of 4 keys are enumerated by TLC with the invariant operational = declarative; each row is rendered with seeded random distinct element values and executed in-process; ok rows must print exactly the element(s), err rows must give an error message and a non-zero exit number, and no row may report a panic, crash or hang.',
+    '`![` content, absent map keys, `[[` and multi-key lookups on maps are executed but not judged (the property does not define them)', 'DESIGN §6 C16')
+add('C17', 'model_checking',
+    'TLA+ spec Arrays.tla: TLC checks the transcribed streaming range matcher (createRfIndex/newIndex arithmetic, SetLength for negative starts, Start/End counters and exclude branch of the readArray callback, one action per item) against the slice rule of the property and exports the case table; every row is run through the real `[s..e]` filter on str and json lists and compared',
+    'All list lengths 0..8 (thorough 0..20) x start/end in -10..12 (-22..24) or absent x {no flag, e} are enumerated by TLC with the invariant operational = declarative on the rows the property defines; each row is executed on a str list and a json array and the items on stdout are compared with the table.',
+    'rows outside the forms the property defines (start 0, start > end, negative end, negative start with an end) are executed for panic/crash/hang only', 'DESIGN §6 C17')
+add('C18', 'model_checking',
+    'TLA+ spec Arrays.tla: TLC checks the transcribed generation loops of rangeToArrayString (direction, padding) and the goto odometer of writeArrayString against "every integer m..n, zero-padded to the width of the zero-padded bound" and "cartesian product, last block fastest" and exports the case table; every expression is run through the real `a` and `ja` and compared',
+    'Every pair of spellings (natural, zero-padded to 2 and 3 digits) of integers in -10..10 (thorough -30..30), fixed pairs near +-200 plus seeded random pairs in -200..200, and every parameter of <=3 blocks from a menu of literal lists, ranges and mixed blocks are enumerated by TLC with the invariant operational = declarative; each is executed with `a` and `ja` and the element texts are compared.',
+    'padding judged only for unambiguous spellings (none padded; both at the same width; only the numerically lower bound padded); other spellings executed, not judged', 'DESIGN §6 C18')
+add('C38', 'exploration',
+    'TLA+ relations in Arrays.tla (permutation + sortedness, reverse, prepend/append, complementary subsequences, element-wise left/right/prefix/suffix) evaluated by TLC (ArraysTrace.tla) on recorded (input, parameters, output) of the real list builtins over seeded random hostile lists',
+    'Random JSON string arrays and str lists of 0-40 elements over a hostile alphabet plus all lists of <=3 elements over 5 hostile spellings are pushed through the real msort, mtac, prepend, append, match, !match, left, right, prefix, suffix; every record is judged by TLC evaluating the specification relation (msort is checked as permutation and order, not by re-sorting).',
+    'no newline or single quote in elements; str elements non-empty and trimmed; left/right on ASCII elements with k != 0', 'DESIGN §6 C38')
+add('C15', 'exploration',
+    'TLA+ relations in Arrays.tla (round trip identity, foreach activation sequence = list, newline framing model) evaluated by TLC (ArraysTrace.tla) on recordings of the real WriteArray -> bytes -> ReadArray / ReadArrayWithType of every registered array type (mxh arrays-roundtrip) and of real `foreach` runs over those bytes',
+    'The types registered with both an array writer and reader are discovered from the real registry; per type all lists of <=2 elements, a seeded sample of triples over 4 spellings of its legal alphabet, seeded random lists of 0-50 elements and lists with elements up to 60 KiB are written, read back and iterated; TLC judges every record; byte-level framing is modelled for str, string, generic, *, jsonl, the other types are identity-checked.',
+    'legal alphabets per type are listed in the evidence; toml refuses to write arrays and is excluded; the empty list is not judged for writers that report "no data returned" by design', 'DESIGN §6 C15')
 
 
 def main():
